@@ -2,14 +2,17 @@ package vh
 
 import (
 	"bufio"
+	"context"
 	"encoding/json"
 	"flag"
 	"fmt"
+	"net"
 	"os"
 	"sync/atomic"
 	"time"
 
 	erpc "github.com/henrylee2cn/erpc/v6"
+	"github.com/henrylee2cn/erpc/v6/socket"
 )
 
 func init() { Drivers["redialm"] = drvRedialM }
@@ -92,7 +95,99 @@ func drvRedialM(args []string) int {
 	return 0
 }
 
+// runEarlyReply: a hostile remote (a scripted raw peer) answers a call it has not received yet, while the caller is still
+// inside AsyncCall (parked at call.stored) and the write of that call then fails (its context is already cancelled): the
+// call completes with the write error, the reply must not complete it a second time, and a later Close() returns
+// (Session.tla with EarlyReplies; the session redials or not according to sc.Loss = "redial" / "plain").
+func runEarlyReply(rec *Rec, g *Gates, sc *RedialMScenario, n int) {
+	rec.SetTrace(sc.ID, map[string]interface{}{"mode": "redialm", "kind": sc.Kind, "alwaysup": true, "closed": true})
+	lis, err := LoopListen()
+	if err != nil {
+		rec.Emit("EnvFailure", "what", "listen: "+err.Error())
+		return
+	}
+	defer lis.Close()
+	srvConn := make(chan net.Conn, 4)
+	go func() {
+		for {
+			c, err := lis.Accept()
+			if err != nil {
+				return
+			}
+			srvConn <- c
+		}
+	}()
+	rt := int32(0)
+	if sc.Loss == "redial" {
+		rt = 1
+	}
+	cli := erpc.NewPeer(erpc.PeerConfig{RedialTimes: rt, RedialInterval: 3 * time.Millisecond, DialTimeout: 2 * time.Second})
+	sess, st := cli.Dial(lis.Addr().String())
+	if !st.OK() {
+		rec.Emit("EnvFailure", "what", "dial: "+st.String())
+		return
+	}
+	rec.Emit("DialDone", "ok", true)
+	var raw socket.Socket
+	select {
+	case c := <-srvConn:
+		raw = socket.NewSocket(c)
+	case <-time.After(2 * time.Second):
+		rec.Emit("EnvFailure", "what", "no connection accepted")
+		return
+	}
+	sn := fmt.Sprintf("RM%d", n)
+	g.SetNamer(func(s erpc.Session) string {
+		if s == sess {
+			return sn
+		}
+		return ""
+	})
+	g.Hold(sn + ":call.stored")
+	ctx, cancel := context.WithCancel(context.Background())
+	cancel()
+	res := new(Res)
+	done := make(chan erpc.CallCmd, 1)
+	go func() { done <- sess.Call(CallRoute, &Arg{Tag: sc.ID}, res, erpc.WithContext(ctx)) }()
+	if g.WaitParked(sn+":call.stored", 2*time.Second) {
+		a, _, _ := g.ParkedArgs(sn + ":call.stored")
+		m := socket.NewMessage()
+		m.SetMtype(erpc.TypeReply)
+		m.SetSeq(int32(a))
+		m.SetBodyCodec('j')
+		m.SetBody(&Res{Tag: "early"})
+		raw.WriteMessage(m)
+		WaitUntil(time.Second, func() bool { return g.Hits("reply.found") > 0 })
+		time.Sleep(10 * time.Millisecond) // the reader now waits for the call lock
+	}
+	g.Unhold(sn + ":call.stored")
+	g.Release(sn + ":call.stored")
+	select {
+	case cmd := <-done:
+		// (a write error: not one of the connection errors; recorded for the reader of the trace only)
+		rec.Emit("EarlyCallDone", "code", cmd.Status().Code(), "msg", cmd.Status().Msg())
+	case <-time.After(5 * time.Second):
+		rec.Emit("CallHang", "tag", sc.ID)
+	}
+	time.Sleep(20 * time.Millisecond)
+	closeRet := make(chan struct{})
+	go func() { sess.Close(); close(closeRet) }()
+	select {
+	case <-closeRet:
+		rec.Emit("CloseRet")
+	case <-time.After(5 * time.Second):
+		rec.Emit("CloseHang")
+	}
+	raw.Close()
+	go cli.Close()
+}
+
 func runRedialM(rec *Rec, app *App, g *Gates, fw *forwarder, sc *RedialMScenario, n int) {
+	if sc.Kind == "earlyreply" {
+		g.ResetHits()
+		runEarlyReply(rec, g, sc, n)
+		return
+	}
 	rec.SetTrace(sc.ID, map[string]interface{}{"mode": "redialm", "kind": sc.Kind, "alwaysup": sc.AlwaysUp, "closed": sc.Closed})
 	fw.up()
 	app.ClearBehav()
@@ -161,7 +256,75 @@ func runRedialM(rec *Rec, app *App, g *Gates, fw *forwarder, sc *RedialMScenario
 	fw.waitConn(300 * time.Millisecond)
 	pause := func() { time.Sleep(4 * time.Millisecond) }
 	var heldCall *Behav
+	syncCall := func(name string) bool {
+		res := new(Res)
+		tag := sc.ID + "." + name
+		done := make(chan erpc.CallCmd, 1)
+		go func() { done <- sess.Call(CallRoute, &Arg{Tag: tag}, res) }()
+		select {
+		case cmd := <-done:
+			rec.Emit("CallDone", "code", cmd.Status().Code(), "msg", cmd.Status().Msg(), "resok", res.Tag == F(tag), "tag", tag)
+			return cmd.Status().OK()
+		case <-time.After(5 * time.Second):
+			rec.Emit("CallHang", "tag", tag)
+			return false
+		}
+	}
 	switch sc.Kind {
+	case "stalereader", "latecancel":
+		// Choreographies over three connection generations (TLC counterexamples of RedialM's AliveOrEnded / NoHang with
+		// FixStaleReader / FixLateCancel switched off): reader 0 is parked before it closes the socket, a call redials
+		// (connection 1), reader 0 goes on and closes connection 1, reader 1 is parked with its read error ...
+		g.Hold(key("rd.cancelled"))
+		fw.cut()
+		if !g.WaitParked(key("rd.cancelled"), 2*time.Second) {
+			rec.Emit("Parked", "park", "rd.cancelled", "reached", false)
+			break
+		}
+		g.Unhold(key("rd.cancelled"))
+		if !syncCall("a") { // redials: connection 1
+			break
+		}
+		if sc.Kind == "latecancel" {
+			// ... a call is in flight on connection 1 and the server goes away for new connections ...
+			tag := sc.ID + ".long"
+			heldCall = &Behav{Hold: make(chan struct{}), Entered: make(chan struct{})}
+			app.SetBehav(tag, heldCall)
+			p := &pend{done: make(chan erpc.CallCmd, 1), res: new(Res), tag: tag}
+			calls = append(calls, p)
+			go func() { p.done <- sess.Call(CallRoute, &Arg{Tag: p.tag}, p.res) }()
+			select {
+			case <-heldCall.Entered:
+			case <-time.After(2 * time.Second):
+			}
+			fw.refuse()
+			g.Hold(key("rd.sock"))
+		}
+		g.Hold(key("read.frame#1")) // a failed read
+		g.Release(key("rd.cancelled"))
+		if sc.Kind == "latecancel" {
+			g.WaitParked(key("rd.sock"), 2*time.Second)
+			g.Unhold(key("rd.sock"))
+		}
+		r1 := g.WaitParked(key("read.frame#1"), 2*time.Second)
+		g.Unhold(key("read.frame#1"))
+		rec.Emit("Parked", "park", "read.frame#1", "reached", r1)
+		// ... a further call: redials again (connection 2), or, with the server away, loses its round ...
+		syncCall("b")
+		if sc.Kind == "latecancel" {
+			g.Release(key("rd.sock")) // reader 0: the round somebody else ran has failed: it ends the session
+			time.Sleep(30 * time.Millisecond)
+		} else {
+			time.Sleep(15 * time.Millisecond)
+		}
+		g.Release(key("read.frame#1")) // ... and the stale reader 1 goes on
+		time.Sleep(30 * time.Millisecond)
+		if sc.Kind == "latecancel" {
+			fw.up()
+		}
+	case "earlyreply":
+		// no loss: see runEarlyReply (a scripted remote); not reached here
+
 	case "lossrace":
 		if sc.Park != "none" {
 			g.Hold(key(sc.Park))
